@@ -585,8 +585,8 @@ Proof.
   assert (0 <= b * (4 - b)) by (apply mul_nonneg; lra). lra.
 Qed.
 
-(* SteepestDescent::read/write at the pinned commit do not archive the point, its value or its
-   gradient: the restored instance continues from the fresh instance's start (finding F16) *)
+(* SteepestDescent::read/write before the repair c36da89f did not archive the point, its value or its
+   gradient: the restored instance continued from the fresh instance's start (finding F16) *)
 Definition f16_s := sd_run exq_f exq_grad 3 (sd_init exq_f exq_grad (1#8) 0 [4; -2]).
 Definition f16_fresh := sd_init exq_f exq_grad (1#8) 0 [4; -2].
 Example steepestdescent_coded_restore_refuted :
